@@ -224,7 +224,7 @@ def getopt_cases(r):
 
 
 def gen_parsers(rng, tier, mult):
-    n = (220 if tier == "quick" else 3500) * mult
+    n = (900 if tier == "quick" else 20000) * mult
     cases = [["abi"]]
     for ci in range(n):
         r = rng.fork("p%d" % ci)
